@@ -78,7 +78,7 @@ func c11Placeholder(r *fw.Rand) ref.Node {
 }
 
 var c11Words = []string{"Hello", "you have", "items in", "your cart", "Click", "here", "to see", "and", "from", "total:"}
-var c11Tags = []string{"<b>", "</b>", "<a href=\"/x\">", "</a>", "<br/>", "<i>", "</i>"}
+var c11Tags = []string{"<b>", "</b>", "<a href=\"/x\">", "</a>", "<br/>", "<i>", "</i>", "<my-button kind=\"ok\">", "</my-button>", "<o:p>", "</o:p>", "<x-1/>", "<h2>", "</h2>"}
 
 func c11Parts(r *fw.Rand, allowCall bool) []ref.Node {
 	var out []ref.Node
